@@ -274,6 +274,19 @@ func (c *Client) packet(ctx context.Context) (proto.ServerCode, error) {
 	return code, nil
 }
 
+// contextErr is ctx.Err(), or context.DeadlineExceeded when the deadline of
+// ctx has passed but ctx does not report it yet: the deadlines armed on the
+// connection are copies of that deadline and may be noticed first.
+func contextErr(ctx context.Context) error {
+	if err := ctx.Err(); err != nil {
+		return err
+	}
+	if d, ok := ctx.Deadline(); ok && !time.Now().Before(d) {
+		return context.DeadlineExceeded
+	}
+	return nil
+}
+
 func (c *Client) flushBuf(ctx context.Context, b *proto.Buffer) error {
 	defer b.Reset()
 	if err := ctx.Err(); err != nil {
